@@ -431,7 +431,18 @@ def gen_planted(rng):
             objs.append([u + "_1", clash])
         return ["problem", "p", ["types"] + types, ["objects"] + objs, ["fluents"] + fls, ["init"],
                 ["actions"] + acts, ["goals", ["le", ["i", "1"], ["fl", num[0]]]], ["traj"], ["metrics"]]
-    if k < 0.65:
+    if k < 0.42:
+        # a disjunctive goal next to things named like the remover's fake goal fluent / fake actions
+        clash = rng.choice(["disjunctive_conditions_remover_fake_goal", "disjunctive_conditions_remover_fake_action",
+                            "disjunctive_conditions_remover_fake_action_0", "disjunctive_conditions_remover_fake_goal_0"])
+        kd = rng.choice(["object", "action", "fluent"])
+        q, r = [s, "bool", []], [t, "bool", []]
+        fls = [[q, ["b", "F"]], [r, ["b", "F"]]] + ([[[clash, "bool", []], ["b", "F"]]] if kd == "fluent" else [])
+        acts = [["action", clash if kd == "action" else u, [], ["pre", ["or", ["fl", q], ["not", ["fl", r]]]],
+                 ["effs", ["eff", "assign", ["fl", q], ["b", "T"], ["b", "T"], []]]]]
+        return ["problem", "p", ["types", ["T", "_"]], ["objects"] + ([[clash, "T"]] if kd == "object" else []),
+                ["fluents"] + fls, ["init"], ["actions"] + acts, ["goals", ["or", ["fl", q], ["fl", r]]], ["traj"], ["metrics"]]
+    if k < 0.7:
         # action s(x,y) over objects {t_u, u, t, ...} and action s_t(y): s_t_u twice
         objs = [[t + "_" + u, "T"], [u, "T"], [t, "T"]] + ([[u + "_" + t, "T"]] if rng.random() < 0.5 else [])
         rng.shuffle(objs)
